@@ -1,3 +1,4 @@
+import codecs
 import io
 
 from prov import Error
@@ -12,12 +13,20 @@ def is_text_stream(stream):
     """
     Tell a text stream from a binary one.
 
-    Text streams are the :py:class:`io.TextIOBase` instances and the objects that
+    Text streams are the :py:class:`io.TextIOBase` instances, the objects that
     wrap one without deriving from it (e.g. what :py:func:`tempfile.NamedTemporaryFile`
-    returns in text mode): like every text stream they have an ``encoding``
-    attribute, which binary streams do not have.
+    returns in text mode: like every text stream they have an ``encoding``
+    attribute, which binary streams do not have), and the stream readers and
+    writers of :py:mod:`codecs`.
     """
-    return isinstance(stream, io.TextIOBase) or hasattr(stream, "encoding")
+    return (
+        isinstance(stream, io.TextIOBase)
+        or hasattr(stream, "encoding")
+        or isinstance(
+            stream,
+            (codecs.StreamReader, codecs.StreamWriter, codecs.StreamReaderWriter),
+        )
+    )
 
 
 class Serializer(object):
